@@ -15,6 +15,7 @@ import multiprocessing
 
 from ..framework import Check, Violation
 from ..xplore import HarnessError
+from ..certharness import verdict, same_hex
 from ..xplore import h64
 from ..gen import certs as G
 
@@ -26,23 +27,33 @@ DAY = G.timedelta(days=1)
 
 
 def walk(d):
-    """Independent structural walk over a saved dictionary: None or a reason."""
+    """Independent structural walk over a saved dictionary: None or a reason.  Only the documented
+    keys are read (extra keys are nobody's business); when a name occurs more than once in the
+    saved elements, either resolution (first or last occurrence) may carry the paths."""
     if not isinstance(d, dict) or d.get("version") not in (1, 2):
         return "version"
     root = ROOTS[1 if d["version"] == 1 else 2]
-    if not isinstance(d.get("targets"), list) or not isinstance(d.get("elements"), list):
+    if not isinstance(d.get("targets"), (list, tuple)) or not isinstance(d.get("elements"), (list, tuple)):
         return "shape"
-    els = {}
     for e in d["elements"]:
         if not isinstance(e, dict) or "name" not in e or "signed_by" not in e:
             return "element-shape"
+    reason = None
+    for order in (d["elements"], list(reversed(d["elements"]))):
+        els = {}
         try:
-            if e["name"] in els:
-                return "duplicate-name-saved"
-            els[e["name"]] = e
+            for e in order:
+                els[e["name"]] = e
         except TypeError:
             return "unhashable-name"
-    for t in d["targets"]:
+        reason = _walk_paths(d["targets"], els, root)
+        if reason is None:
+            return None
+    return reason
+
+
+def _walk_paths(targets, els, root):
+    for t in targets:
         try:
             if t not in els:
                 return "target-missing"
@@ -66,6 +77,19 @@ def walk(d):
             if len(seen) > len(els):
                 return "cycle"
     return None
+
+
+def same_verdict(got, want):
+    """got: as reported (normalised by norm_result); want: (True, value, tweak) / (False, name)."""
+    g, w = verdict(got), verdict(want)
+    if g is None or w is None or g[0] != w[0]:
+        return False
+    if g[0] == "fail":
+        return g[1] == w[1]
+    if isinstance(w[1], dict):
+        return (isinstance(g[1], dict) and same_hex(g[1].get("message"), w[1]["message"])
+                and g[1].get("sgx_quote") == w[1]["sgx_quote"] and g[2] is None)
+    return isinstance(g[1], str) and same_hex(g[1], w[1]) and same_hex(g[2], w[2])
 
 
 class _Enough(Exception):
@@ -667,16 +691,15 @@ class C16(Check):
         else:
             res = r1[1]
             bad = [t for t in d["targets"] if t not in res] if isinstance(res, dict) else d["targets"]
-            shape_ok = isinstance(res, dict) and all(
-                isinstance(v, tuple) and ((len(v) == 3 and v[0] is True) or (len(v) == 2 and v[0] is False))
-                for v in res.values())
+            shape_ok = isinstance(res, dict) and all(verdict(v) is not None for v in res.values())
             if bad or not shape_ok:
                 self.viol(vs, "C16:verdict-missing:" + "+".join(tkinds), text, label, {"result": res},
                           {"targets": d["targets"]}, "an entry per target")
-            v1sig = ("ok", tuple(sorted((str(k), v[0]) for k, v in res.items()))) if isinstance(res, dict) else ("?",)
+            v1sig = ("ok", tuple(sorted((str(k), bool(v[0])) for k, v in res.items()))) \
+                if isinstance(res, dict) and shape_ok else ("?",)
             if expect is not None and isinstance(res, dict):
                 for t, want in expect.items():
-                    if want is not None and res.get(t) != want:
+                    if want is not None and not same_verdict(res.get(t), want):
                         self.viol(vs, "C16:genuine-verdict:%s:%s" % (label.split(":")[1], types.get(t)), text, label,
                                   {"target": t, "result": res.get(t)}, {"target": t, "result": want},
                                   "a genuine certificate gives the verdicts the reference computes")
@@ -687,7 +710,7 @@ class C16(Check):
             self.viol(vs, "C16:save-raises:%s" % (type(sv[1]).__name__ if sv[0] == "raise" else "budget"),
                       text, label, {"save": repr(sv[1])}, {}, "saving a loaded certificate")
             return
-        ld = impl.budgeted(lambda: impl.load_text(sv[1], "mem://again.json"))
+        ld = impl.budgeted(lambda: impl.load_text(sv[1], "again"))
         if ld[0] != "ok":
             stats.observe((label, "reload", ld[0]))
             self.viol(vs, "C16:reload-fails:%s:%s" % (type(ld[1]).__name__ if ld[0] == "raise" else "budget",
@@ -699,7 +722,8 @@ class C16(Check):
         v2sig = ("raise", type(r2[1]).__name__) if r2[0] == "raise" else (r2[0],)
         same = (r1[0] == r2[0]) and (r1[1] == r2[1] if r1[0] == "ok" else
                                       (r1[0] != "raise" or type(r1[1]) is type(r2[1])))
-        vclass = tuple(sorted({(types.get(k), v[0]) for k, v in r1[1].items()})) if r1[0] == "ok" else v1sig
+        vclass = tuple(sorted({(str(types.get(k)), str(verdict(v) and verdict(v)[0])) for k, v in r1[1].items()})) \
+            if r1[0] == "ok" and isinstance(r1[1], dict) else v1sig
         stats.observe((label, "loaded", vclass, same))
         stats.sample({"label": label, "text": text[:300], "outcome": "loaded", "verdicts": repr(vclass)})
         if not same:
